@@ -78,4 +78,157 @@ theorem C13_here (routesOf : String → List (String × String)) (svcs : List St
     ∀ r ∈ newRouter Chf.Gen.caseFacts routesOf svcs, serveChain false r.chain = ⟨401, false⟩ :=
   C13 Chf.Gen.caseFacts C13_cases_protected routesOf svcs
 
+/-! ### the middleware and the decision, path by path (regenerated: `checkPaths`, `authPaths`) -/
+
+/-- every control-flow path of `RouterAuthorizationCheck.Check` that a request without a verifiable token can
+    take writes 401 and aborts the chain; a path that returns early without `Abort` (or that calls `Next`
+    first, or that contains a statement the extractor cannot read) breaks this -/
+theorem C13_check_paths_safe : ∀ p ∈ Chf.Gen.checkPaths, pathSafe p = true := by decide
+
+/-- `CHFContext.AuthorizationCheck` consults nothing but `OAuth2Required` and `oauth.VerifyOAuth` applied to
+    the request's own header: no cache, no clock, no earlier request -/
+theorem C13_auth_paths_pure : ∀ p ∈ Chf.Gen.authPaths, p.pure = true := by decide
+
+/-- … and it decides every request (some path applies whether or not OAuth2 is required) -/
+theorem C13_auth_paths_total :
+    ∀ required ∈ [true, false], Chf.Gen.authPaths.any (·.taken (fun _ => false) required) = true := by decide
+
+/-- a rejecting path makes gin answer 401 without running the API function -/
+theorem C13_mw_rejects (p : List Ev) (hs : pathSafe p = true) (hf : feasible false p = true) :
+    serveVia p [.auth, .handler] = ⟨401, false⟩ := by
+  have hr : rejects p = true := by
+    simp only [pathSafe, hf, Bool.not_true, Bool.false_or] at hs
+    exact hs
+  simp only [rejects, Bool.and_eq_true, beq_iff_eq, Bool.not_eq_true'] at hr
+  obtain ⟨⟨⟨h1, h2⟩, h3⟩, _⟩ := hr
+  simp [serveVia, h1, h2, h3]
+
+theorem all_congr_mem {α : Type} {l : List α} {f g : α → Bool} (h : ∀ x ∈ l, f x = g x) : l.all f = l.all g := by
+  induction l with
+  | nil => rfl
+  | cons a r ih =>
+    simp only [List.all_cons]
+    rw [h a (List.mem_cons_self ..), ih (fun x hx => h x (List.mem_cons_of_mem _ hx))]
+
+theorem pure_no_unread (p : APath) (hp : p.pure = true) :
+    p.evs.any AEv.isUnread = false := by
+  simp only [APath.pure, Bool.and_eq_true, List.all_eq_true] at hp
+  rw [List.any_eq_false]
+  intro e he
+  have := hp.1 e he
+  cases e <;> simp_all [AEv.isUnread]
+
+theorem pure_taken_indep (p : APath) (hp : p.pure = true) (a₁ a₂ : Adversary) (required : Bool) :
+    p.taken a₁ required = p.taken a₂ required := by
+  simp only [APath.pure, Bool.and_eq_true, List.all_eq_true] at hp
+  have h := hp.1
+  simp only [APath.taken]
+  apply all_congr_mem
+  intro e he
+  have := h e he
+  cases e <;> simp_all
+
+theorem pure_accepts_indep (p : APath) (hp : p.pure = true) (a₁ a₂ : Adversary) (verifies : Bool) :
+    p.accepts a₁ verifies = p.accepts a₂ verifies := by
+  have hno := pure_no_unread p hp
+  simp only [APath.pure, Bool.and_eq_true] at hp
+  obtain ⟨_, hret⟩ := hp
+  cases hr : p.ret with
+  | nil => simp only [APath.accepts, hr]
+  | verify => simp only [APath.accepts, hr]
+  | errVar =>
+    simp only [hr] at hret
+    simp only [APath.accepts, hr]
+    rw [hno, hret]
+    rfl
+  | other s => simp [hr] at hret
+
+/-- **Statelessness.**  When every path of the decision function is pure, the decision for a request is a
+    function of (OAuth2Required, does the request's own header verify) alone: two adversaries — two histories
+    of earlier requests, two clock readings, two cache contents — cannot make it differ. -/
+theorem C13_stateless (paths : List APath) (h : ∀ p ∈ paths, p.pure = true) (a₁ a₂ : Adversary)
+    (required verifies : Bool) :
+    decision paths a₁ required verifies = decision paths a₂ required verifies := by
+  induction paths with
+  | nil => rfl
+  | cons p r ih =>
+    have hp := h p (List.mem_cons_self ..)
+    have ihr := ih (fun q hq => h q (List.mem_cons_of_mem _ hq))
+    simp only [decision, List.find?_cons] at ihr ⊢
+    rw [pure_taken_indep p hp a₁ a₂ required]
+    cases p.taken a₂ required with
+    | true => simp [pure_accepts_indep p hp a₁ a₂ verifies]
+    | false => exact ihr
+
+/-- the same, spelled out over histories: whatever was presented (and accepted) before, the decision on the
+    next request is the decision on that request presented first -/
+theorem C13_history_independent (paths : List APath) (h : ∀ p ∈ paths, p.pure = true)
+    (world : List Bool → Adversary) (hist : List Bool) (required verifies : Bool) :
+    decision paths (world hist) required verifies = decision paths (world []) required verifies :=
+  C13_stateless paths h _ _ required verifies
+
+/-- with OAuth2 required, a header that does not verify is never accepted, under any adversary -/
+theorem C13_unverified_rejected (paths : List APath) (h : ∀ p ∈ paths, p.pure = true) (adv : Adversary) :
+    decision paths adv true false ≠ some true := by
+  intro hd
+  simp only [decision, Option.map_eq_some_iff] at hd
+  obtain ⟨p, hfind, hacc⟩ := hd
+  have hmem : p ∈ paths := List.mem_of_find?_eq_some hfind
+  have htaken : p.taken adv true = true := by
+    have := List.find?_some hfind
+    simpa using this
+  have hp := h p hmem
+  simp only [APath.pure, Bool.and_eq_true, List.all_eq_true] at hp
+  obtain ⟨hev, hret⟩ := hp
+  simp only [APath.accepts] at hacc
+  cases hr : p.ret with
+  | nil =>
+    simp only [hr, List.contains_iff_mem] at hret
+    simp only [APath.taken, List.all_eq_true] at htaken
+    have := htaken _ hret
+    simp at this
+  | verify => simp [hr] at hacc
+  | errVar =>
+    simp only [hr] at hret hacc
+    rw [pure_no_unread p (h p hmem), hret] at hacc
+    simp at hacc
+  | other s => simp [hr] at hret
+
+/-- **C13, per request.**  For the code at hand: any list of enabled services, any route of the router, any
+    history / clock / request-context state (the adversaries of both functions): a request whose bearer token
+    does not verify is answered 401 and the API function does not run — on whichever path of the middleware the
+    request travels. -/
+theorem C13_request (routesOf : String → List (String × String)) (svcs : List String)
+    (adv : Adversary) (ok : Bool) (hd : decision Chf.Gen.authPaths adv true false = some ok) :
+    ∀ r ∈ newRouter Chf.Gen.caseFacts routesOf svcs, ∀ p ∈ Chf.Gen.checkPaths, feasible ok p = true →
+      serveVia p r.chain = ⟨401, false⟩ := by
+  intro r hr p hp hf
+  have hok : ok = false := by
+    cases ok with
+    | false => rfl
+    | true => exact absurd hd (C13_unverified_rejected _ C13_auth_paths_pure adv)
+  subst hok
+  rw [protected_chain _ C13_cases_protected routesOf svcs r hr]
+  exact C13_mw_rejects p (C13_check_paths_safe p hp) hf
+
+/-! ### both hypotheses are needed -/
+
+/-- a decision function with a remembered-verification shortcut is not pure, and some history makes it accept a
+    header that does not verify -/
+theorem C13_cache_witness :
+    let cached : List APath := [⟨[.notRequired true], .nil⟩,
+                                ⟨[.notRequired false, .cond "fresh entry for this key" true], .nil⟩,
+                                ⟨[.notRequired false, .cond "fresh entry for this key" false], .verify⟩]
+    (cached.all (·.pure) = false) ∧ decision cached (fun _ => true) true false = some true := by decide
+
+/-- a middleware path that returns before the decision without aborting lets the API function run -/
+theorem C13_early_return_witness :
+    let p : List Ev := [.cond "c.Request.Context().Err() != nil" true]
+    pathSafe p = false ∧ feasible false p = true ∧ serveVia p [.auth, .handler] = ⟨200, true⟩ := by decide
+
+/-- … and so does one that answers 401 but forgets `Abort` -/
+theorem C13_no_abort_witness :
+    let p : List Ev := [.authCall, .errNonNil true, .respond 401]
+    pathSafe p = false ∧ serveVia p [.auth, .handler] = ⟨200, true⟩ := by decide
+
 end Chf.Props.C13
